@@ -91,6 +91,14 @@ def oracle_definition(facts, rep):
             only_false_or_unacked = all((E.strip_casts(de) == ("const", 0)) or E.is_call(E.strip_casts(de), "RtpsReaderProxy::unacked_changes") for de in defs0)
             merged = bool(g) and kf.only_through(ub, g) and only_false_or_unacked
     ok_shape = neg == 1 and E.is_call(e, "Iterator::any") and E.mentions_field(e, "matched_readers") and (E.mentions_call(e, "Iterator::filter") or merged)
+    if not ok_shape and neg == 0 and E.is_call(e, "Iterator::all") and E.mentions_field(e, "matched_readers") and E.mentions_call(e, "Iterator::filter"):
+        # De Morgan form: filter(reliable).all(|p| !p.unacked_changes(..))
+        for k in kids:
+            if k.calls_any("RtpsReaderProxy::unacked_changes"):
+                kf = FnCtx(k)
+                r0 = kf.eb.place(__import__("vplib.facts", fromlist=["Place"]).Place([0, []]))
+                if r0[0] == "un" and r0[1] == "Not" and E.is_call(E.strip_casts(r0[2]), "RtpsReaderProxy::unacked_changes"):
+                    ok_shape = True
     add("R03b", "is_change_acknowledged = !matched_readers.filter(reliable).any(unacked)", ok_shape, "shape is %s" % fc.show(ret)[:200])
     unacked = [k for k in kids if k.calls_any("RtpsReaderProxy::unacked_changes")]
     add("R03b", "any-closure asks RtpsReaderProxy::unacked_changes", len(unacked) == 1, "closures calling unacked_changes: %d" % len(unacked))
@@ -128,6 +136,20 @@ def oracle_definition(facts, rep):
                 pass
             else:
                 addu("R03b", "unacked_changes returns only `available > highest_acked` or false", False, "returns %s" % uf.show(e), s.line)
+    if not good:
+        # `highest_available.is_some_and(|sn| sn > self.highest_acked_seq_num)`: the function returns the combinator's result and the
+        # comparison is the closure's value
+        ret_calls = [t for bb, t in uf.mir.calls() if t.dest is not None and t.dest.is_local() and t.dest.local == 0 and not t.callee.indirect
+                     and t.callee.method() in ("is_some_and", "map_or", "is_ok_and")]
+        for k in facts.descendants(u):
+            if k.mir is None or not ret_calls:
+                continue
+            kf = FnCtx(k)
+            for d in kf.mir.whole_defs(0):
+                c = cmp_norm(E.strip_casts(kf._def_expr(d)))
+                if c and ((c[0] == "Gt" and E.mentions_field(c[2], "highest_acked_seq_num") and not E.mentions_field(c[1], "highest_acked_seq_num"))
+                          or (c[0] == "Lt" and E.mentions_field(c[1], "highest_acked_seq_num") and not E.mentions_field(c[2], "highest_acked_seq_num"))):
+                    good = True
     addu("R03b", "unacked_changes compares against highest_acked_seq_num", good, "comparison not found")
     # who may write highest_acked_seq_num / who may call acked_changes_set
     n = 0
